@@ -84,7 +84,21 @@ Definition ref_rank (d : definition) : option N :=
 (* the only right-to-left binary operator *)
 Definition ref_rtl (d : definition) : bool := match d with D_Pair => true | _ => false end.
 
-Inductive tok_kind : Type := KValue | KBinary | KPrefix | KSuffix | KOpen | KClose | KSpace | KOther.
+(* the two kinds of brackets of the expression fragment: round brackets `( )` (a group) and
+   curly brackets `{ }` (a nested expression) *)
+Inductive bkind : Type := BRound | BCurly.
+Definition bkind_eqb (a b : bkind) : bool :=
+  match a, b with BRound, BRound | BCurly, BCurly => true | _, _ => false end.
+Definition bdef (b : bkind) : definition :=
+  match b with BRound => D_Group | BCurly => D_NestedExpression end.
+
+Definition open_tok (b : bkind) : token_type :=
+  match b with BRound => TT_StartGroup | BCurly => TT_StartExpression end.
+Definition close_tok (b : bkind) : token_type :=
+  match b with BRound => TT_EndGroup | BCurly => TT_EndExpression end.
+
+Inductive tok_kind : Type :=
+  KValue | KBinary | KPrefix | KSuffix | KOpen (b : bkind) | KClose (b : bkind) | KSpace | KOther.
 
 Definition ref_kind (t : token_type) : tok_kind :=
   match t with
@@ -110,10 +124,10 @@ Definition ref_kind (t : token_type) : tok_kind :=
   | TT_Xor => KBinary
   | TT_Not => KPrefix
   | TT_Tis => KPrefix
-  | TT_StartExpression => KOther
-  | TT_EndExpression => KOther
-  | TT_StartGroup => KOpen
-  | TT_EndGroup => KClose
+  | TT_StartExpression => KOpen BCurly
+  | TT_EndExpression => KClose BCurly
+  | TT_StartGroup => KOpen BRound
+  | TT_EndGroup => KClose BRound
   | TT_StartSideEffect => KOther
   | TT_EndSideEffect => KOther
   | TT_Value => KValue
